@@ -144,7 +144,7 @@ impl Property for Embed {
 
     fn runs(&self, tier: Tier) -> u64 {
         match tier {
-            Tier::Quick => 11 * 600,
+            Tier::Quick => 11 * 2400,
             Tier::Thorough => 11 * 40_000,
         }
     }
